@@ -1,6 +1,177 @@
-/- Driver/C12 — stub until the property's model driver is written. -/
+/-
+Driver/C12 — runs the executable model of the multi-layer cache (Model/MultiLayer over the C10
+layer models) on protocol lines.
+
+  begin L=<layer>;<layer>… strat=onhit|after:<n>|manual|freq|age hooks=none|md5|ngdp|noop|err skip=<n>
+        layer = m:<max_entries>:<max_bytes|none>:<lru|fifo>:<long|short>  |  d:<long|short>
+  put <k> <hex>            putttl <k> <hex> long|short       putl <k> <hex> <layer>
+  get <k>                  getl <k> <layer>                  promote <k> <from> <to>
+  remove <k>               clear                             bget <k,k,…|->
+  bput <k>=<hex>,…|-       putv <k> <ck> <hex>               getv <k> <ck|->
+  stats                    fdel <layer> <k>                  fset <layer> <k> <hex>
+  skipprobe <len>
+
+A call whose lock trace requests the tracker lock while holding it is answered `timeout` (the
+real call never returns); the model of the fixed code never produces such a trace
+(`ml_no_self_deadlock`).  The content hash is RFC 1321 MD5 (Spec/Md5).
+-/
 import Driver.Common
-open Drv
+import Cascette.Spec.Md5
+import Cascette.Model.MultiLayer
+open Cascette Drv
+open Cascette.Model
+open Cascette.Model.MultiLayer
+
+structure DSt where
+  env : Env
+  st : State
+
+def kv (pre : String) (t : String) : Option String :=
+  if t.startsWith pre then some (t.drop pre.length).toString else none
+
+def parseClass : String → Option Bool
+  | "short" => some true | "long" => some false | _ => none
+
+def parsePolicy : String → Option MemCache.Policy
+  | "lru" => some .lru | "fifo" => some .fifo | _ => none
+
+def md5Nat (v : List Nat) : List Nat := (Spec.Md5.md5 (v.map (BitVec.ofNat 8))).map (·.toNat)
+
+def parseLayer (t : String) : Option Layer :=
+  match t.splitOn ":" with
+  | ["m", mx, by_, pol, dt] =>
+    match mx.toNat?, parsePolicy pol, parseClass dt with
+    | some mx, some pol, some dt =>
+      let mb : Option (Option Nat) := if by_ == "none" then some none else by_.toNat?.map some
+      match mb with
+      | some mb =>
+        if mx = 0 ∨ mb = some 0 then none
+        else some (.mem { maxEntries := mx, maxBytes := mb, policy := pol, defaultShort := dt } MemCache.init)
+      | none => none
+    | _, _, _ => none
+  | ["d", dt] => (parseClass dt).map (fun dt => .disk { defaultShort := dt } DiskCache.init)
+  | _ => none
+
+def parseLayers (t : String) : Option (List Layer) :=
+  (t.splitOn ";").foldr (fun x acc => match parseLayer x, acc with
+    | some l, some ls => some (l :: ls)
+    | _, _ => none) (some [])
+
+def parseStrategy (t : String) : Option Strategy :=
+  match t.splitOn ":" with
+  | ["onhit"] => some .onHit
+  | ["manual"] => some .manual
+  | ["freq"] => some (.timed false)
+  | ["age"] => some (.timed false)
+  | ["after", n] => n.toNat?.map .afterN
+  | _ => none
+
+def parseHooks (t : String) (skip : Nat) : Option (Option Hooks) :=
+  match t with
+  | "none" => some none
+  | "md5" => some (some (md5Hooks md5Nat skip))
+  | "ngdp" => some (some (md5Hooks md5Nat skip))
+  | "noop" => some (some noopHooks)
+  | "err" => some (some errHooks)
+  | _ => none
+
+def detVictims : Victims := fun cfg s => MemCache.detVictims cfg.policy s.store (MemCache.evictN cfg s)
+
+def showErr : Err → String
+  | .config => "err:config" | .io => "err:io" | .validation => "err:validation"
+  | .corruption => "err:corruption" | .backend => "err:backend"
+
+def showOpt : Option (List Nat) → String
+  | some v => "val " ++ hexOfNats v
+  | none => "none"
+
+def showOut : Out → String
+  | .unit => "ok"
+  | .val o => showOpt o
+  | .bool b => if b then "true" else "false"
+  | .vals l => "vals " ++ (if l.isEmpty then "-" else String.intercalate "|" (l.map (fun o => match o with
+      | some v => hexOfNats v | none => "none")))
+  | .err e => showErr e
+
+def parseKeys (s : String) : Option (List Nat) :=
+  if s == "-" then some [] else
+  (s.splitOn ",").foldr (fun t acc => match t.toNat?, acc with
+    | some n, some l => some (n :: l)
+    | _, _ => none) (some [])
+
+def parseItems (s : String) : Option (List (Nat × List Nat)) :=
+  if s == "-" then some [] else
+  (s.splitOn ",").foldr (fun t acc => match t.splitOn "=", acc with
+    | [k, v], some l => match k.toNat?, parseHexNat v with
+      | some k, some v => some ((k, v) :: l)
+      | _, _ => none
+    | _, _ => none) (some [])
+
+def parseOp (toks : List String) : Option Op :=
+  match toks with
+  | ["put", k, v] => match k.toNat?, parseHexNat v with
+    | some k, some v => some (.put k v) | _, _ => none
+  | ["putttl", k, v, c] => match k.toNat?, parseHexNat v, parseClass c with
+    | some k, some v, some c => some (.putTtl k v c) | _, _, _ => none
+  | ["putl", k, v, i] => match k.toNat?, parseHexNat v, i.toNat? with
+    | some k, some v, some i => some (.putToLayer k v i) | _, _, _ => none
+  | ["get", k] => k.toNat?.map .get
+  | ["getl", k, i] => match k.toNat?, i.toNat? with
+    | some k, some i => some (.getFromLayer k i) | _, _ => none
+  | ["promote", k, a, b] => match k.toNat?, a.toNat?, b.toNat? with
+    | some k, some a, some b => some (.promote k a b) | _, _, _ => none
+  | ["remove", k] => k.toNat?.map .remove
+  | ["clear"] => some .clear
+  | ["bget", ks] => (parseKeys ks).map .batchGet
+  | ["bput", kvs] => (parseItems kvs).map .batchPut
+  | ["putv", k, ck, v] => match k.toNat?, parseHexNat ck, parseHexNat v with
+    | some k, some ck, some v => some (.putv k ck v) | _, _, _ => none
+  | ["getv", k, ck] => match k.toNat? with
+    | some k => if ck == "-" then some (.getv k none) else (parseHexNat ck).map (fun c => .getv k (some c))
+    | none => none
+  | ["fdel", i, k] => match i.toNat?, k.toNat? with
+    | some i, some k => some (.fdel i k) | _, _ => none
+  | ["fset", i, k, v] => match i.toNat?, k.toNat?, parseHexNat v with
+    | some i, some k, some v => some (.fset i k v) | _, _, _ => none
+  | _ => none
+
+def showStats (s : State) : String :=
+  String.intercalate " " (s.slots.map (fun sl => toString sl.hits ++ "/" ++ toString sl.misses))
+    ++ " tracked=" ++ toString s.tracker.length ++ " promos=" ++ toString s.promotions
+
+def handle (d : Option DSt) (toks : List String) : Option DSt × String :=
+  match toks with
+  | ["begin", ls, st, hk, sk] =>
+    match (kv "L=" ls).bind parseLayers, (kv "strat=" st).bind parseStrategy, (kv "skip=" sk).bind (·.toNat?) with
+    | some layers, some strat, some skip =>
+      match (kv "hooks=" hk).bind (parseHooks · skip) with
+      | some hooks =>
+        if layers.isEmpty then (none, "err:config")
+        else (some { env := { strategy := strat, hooks := hooks, victims := detVictims }, st := init layers }, "ok")
+      | none => (none, "bad-op")
+    | none, some _, some _ =>
+      -- a layer specification the configuration validation rejects
+      if (kv "L=" ls).isSome then (none, "err:config") else (none, "bad-op")
+    | _, _, _ => (none, "bad-op")
+  | _ =>
+  match d with
+  | none => (d, "bad-op")
+  | some ds =>
+    match toks with
+    | ["stats"] => (d, showStats ds.st)
+    | ["skipprobe", n] =>
+      match n.toNat? with
+      | some n => (d, match ds.env.hooks with
+          | none => "nohooks"
+          | some h => if h.skip [] n then "skipped" else "checked")
+      | none => (d, "bad-op")
+    | _ =>
+      match parseOp toks with
+      | none => (d, "bad-op")
+      | some op =>
+        let r := step ds.env ds.st op
+        if lockOk r.trace then (some { ds with st := r.st }, showOut r.out)
+        else (some { ds with st := r.st }, "timeout")
 
 def main : IO Unit := do
-  loopPure (← IO.getStdin) (← IO.getStdout) (fun _ => "bad-op")
+  loopState (← IO.getStdin) (← IO.getStdout) handle (none : Option DSt)
